@@ -1,7 +1,7 @@
 """C13 - package version comparison is RPM's ordering (operator coherence, field order, look-ups)."""
 import ast
 
-from ..model import (AnalysisError, FUNC_TYPES, U, call_attr, call_name, dotted, enclosing, guard_texts, short, walk_body, const_str)
+from ..model import (AnalysisError, FUNC_TYPES, U, call_attr, call_name, dotted, enclosing, guard_texts, short, walk_body, const_str, parent)
 from ..util import params, find_calls, assigns_to, trace, stmt_of
 from ..absint import unroll_literal_loops
 from .. import feat
@@ -149,7 +149,8 @@ class OpInterp(object):
                 if isinstance(e.ops[0], ast.Is):
                     return False
             return _cmp(e.ops[0], self.ev(l, env), self.ev(r, env))
-        if any(isinstance(n, ast.Attribute) and isinstance(n.value, ast.Name) and env.get(n.value.id) in ("A", "B") and n.attr in ("epoch", "version", "release", "nvr", "nvra", "package", "evr")
+        if any(isinstance(n, ast.Attribute) and isinstance(n.value, ast.Name) and env.get(n.value.id) in ("A", "B") and not n.attr.startswith("__") and n.attr != "name"
+               and not (isinstance(parent(n), ast.Call) and parent(n).func is n)
                for n in ast.walk(e)):
             raise FieldAccess(short(e, 90))
         raise Unknown("expression %s" % short(e))
@@ -178,7 +179,7 @@ def r1_operator_coherence(cx):
                 cx.bad(cls, "%s does not raise for same-named packages" % name, construct="%s with compare=%d raises" % (name, s))
                 continue
             except FieldAccess as fa:
-                cx.bad(m.get("InstalledRpm." + name), "%s is derived from rpm_version_compare like the other operators; comparing the version fields textually disagrees with them for spellings RPM treats as equal (leading zeros, separators)" % name,
+                cx.bad(m.get("InstalledRpm." + name), "%s is derived from rpm_version_compare alone, like the other operators; deciding on a field of the packages (version text, arch, ...) makes it disagree with them (spellings RPM treats as equal; same version, other arch: neither <, == nor >)" % name,
                        construct="%s evaluates %s" % (name, fa))
                 break
             except Unknown as u:
@@ -460,7 +461,9 @@ def run(cx):
 # ---------------------------------------------------------------------------------------------------------------------------------------
 # C13.R5: the marker / end-of-string / segment-type decisions of _rpm_vercmp, decided for every pair of head-character classes
 # ---------------------------------------------------------------------------------------------------------------------------------------
-HEADS = {"end": "", "tilde": "~", "caret": "^", "alpha": "a", "digit": "1"}
+HEADS = {"end": "", "tilde": "~", "caret": "^", "alpha": "a", "upper": "A", "digit": "1"}
+STRING_CONSTS = {"digits": "0123456789", "ascii_lowercase": "abcdefghijklmnopqrstuvwxyz", "ascii_uppercase": "ABCDEFGHIJKLMNOPQRSTUVWXYZ",
+                 "ascii_letters": "abcdefghijklmnopqrstuvwxyzABCDEFGHIJKLMNOPQRSTUVWXYZ", "hexdigits": "0123456789abcdefABCDEF", "octdigits": "01234567"}
 
 
 class _Seg(object):
@@ -537,7 +540,14 @@ class HeadInterp(object):
             if isinstance(a, str) and isinstance(b, str):
                 return a + b
             raise Unknown("expression %s" % short(e))
+        if isinstance(e, ast.BinOp) and isinstance(e.op, ast.BitOr):
+            a, b = self.ev(e.left), self.ev(e.right)
+            if isinstance(a, frozenset) and isinstance(b, frozenset):
+                return a | b
+            raise Unknown("expression %s" % short(e))
         if isinstance(e, ast.Attribute):
+            if U(e.value) == "string" and e.attr in STRING_CONSTS:
+                return STRING_CONSTS[e.attr]
             c = feat.resolve_const(self.mod, self.fn, e) if self.mod is not None else None
             if isinstance(c, ast.Constant):
                 return c.value
@@ -578,6 +588,10 @@ class HeadInterp(object):
                     return getattr(v, e.func.attr)()
             if call_name(e) in ("bool",) and len(e.args) == 1:
                 return self.truth(self.ev(e.args[0]))
+            if call_name(e) in ("frozenset", "set", "tuple", "list") and len(e.args) == 1:
+                v = self.ev(e.args[0])
+                if isinstance(v, (str, list, frozenset)):
+                    return frozenset(v)
             seg = self.segment(e)
             if seg is not None:
                 return seg
@@ -599,12 +613,13 @@ class HeadInterp(object):
             if kind is None:
                 return None
             h = self.head[n]
-            return _Seg(bool(h) and getattr(h, kind)())
+            return _Seg(bool(h) and bool(kind(h)))
         return None
 
     def pred_kind(self, pred, depth=0):
-        """'isdigit' / 'isalpha' for a character predicate written as a lambda, str.isdigit, methodcaller('isdigit'), a one-line helper, or a
-        conditional expression choosing between two of them on a value the heads determine."""
+        """The character predicate (a python callable on one character) denoted by: a lambda / one-line helper testing v.isdigit() / v.isalpha() or
+        membership of v in a constant character set, str.isdigit, methodcaller('isdigit'), <constant set>.__contains__, or a conditional
+        expression choosing between two of them on a value the heads determine.  None when it is something else."""
         if depth > 3:
             return None
         if isinstance(pred, ast.IfExp):
@@ -613,11 +628,15 @@ class HeadInterp(object):
             except Unknown:
                 return None
             return self.pred_kind(pred.body if t else pred.orelse, depth + 1)
-        if isinstance(pred, ast.Lambda) and isinstance(pred.body, ast.Call) and isinstance(pred.body.func, ast.Attribute) and pred.body.func.attr in ("isdigit", "isalpha") \
-                and not pred.body.args and U(pred.body.func.value) == (pred.args.args[0].arg if pred.args.args else None):
-            return pred.body.func.attr
+        if isinstance(pred, ast.Lambda) and len(pred.args.args) == 1:
+            return self.char_test(pred.body, pred.args.args[0].arg)
         if isinstance(pred, ast.Attribute) and U(pred.value) == "str" and pred.attr in ("isdigit", "isalpha"):
-            return pred.attr
+            return lambda c, k=pred.attr: getattr(c, k)()
+        if isinstance(pred, ast.Attribute) and pred.attr == "__contains__":
+            v = self.ev(pred.value)
+            if isinstance(v, (str, frozenset, set, list, tuple)) and v != "":
+                return lambda c, v=v: c in v
+            return None
         if isinstance(pred, ast.Call) and call_name(pred) in ("methodcaller", "operator.methodcaller") and len(pred.args) == 1:
             a0 = pred.args[0]
             if isinstance(a0, ast.IfExp):
@@ -626,7 +645,7 @@ class HeadInterp(object):
                 except Unknown:
                     return None
             if isinstance(a0, ast.Constant) and a0.value in ("isdigit", "isalpha"):
-                return a0.value
+                return lambda c, k=a0.value: getattr(c, k)()
         if isinstance(pred, ast.Name):
             if pred.id in self.preds:
                 return self.preds[pred.id]
@@ -635,12 +654,20 @@ class HeadInterp(object):
                 if d is None:
                     fs = [x for x in self.mod.tree.body if isinstance(x, FUNC_TYPES) and x.name == pred.id]
                     d = fs[0] if len(fs) == 1 else None
-                if isinstance(d, FUNC_TYPES) and len(d.body) == 1 and isinstance(d.body[0], ast.Return) and d.args.args:
-                    b = d.body[0].value
-                    if isinstance(b, ast.Call) and isinstance(b.func, ast.Attribute) and b.func.attr in ("isdigit", "isalpha") and U(b.func.value) == d.args.args[0].arg:
-                        return b.func.attr
+                if isinstance(d, FUNC_TYPES) and len(d.body) == 1 and isinstance(d.body[0], ast.Return) and len(d.args.args) == 1:
+                    return self.char_test(d.body[0].value, d.args.args[0].arg)
                 if isinstance(d, (ast.Lambda, ast.Attribute, ast.Call)):
                     return self.pred_kind(d, depth + 1)
+        return None
+
+    def char_test(self, body, var):
+        """body is an expression over the one character ``var``: var.isdigit() / var.isalpha() / var in <constant set>."""
+        if isinstance(body, ast.Call) and isinstance(body.func, ast.Attribute) and body.func.attr in ("isdigit", "isalpha") and not body.args and U(body.func.value) == var:
+            return lambda c, k=body.func.attr: getattr(c, k)()
+        if isinstance(body, ast.Compare) and len(body.ops) == 1 and isinstance(body.ops[0], ast.In) and U(body.left) == var:
+            v = self.ev(body.comparators[0])
+            if isinstance(v, (str, frozenset, set, list, tuple)):
+                return lambda c, v=v: bool(c) and c in v
         return None
 
     def truth(self, v):
@@ -737,6 +764,7 @@ class HeadInterp(object):
 
 
 def _expected_head_outcome(ha, hb):
+    ha, hb = ("alpha" if ha == "upper" else ha), ("alpha" if hb == "upper" else hb)
     if ha == "tilde" or hb == "tilde":
         if ha == hb:
             return ("continue", 1, 1)
@@ -761,7 +789,7 @@ def r5_head_table(cx):
     types: '~' sorts before everything (also before the end of the string and before '^'), '^' sorts after the end of the string and before
     anything else, an ended string loses against remaining characters, a numeric segment beats an alphabetic one.  The main loop is evaluated
     for all 25 pairs of head classes; the order of the tests in the source is free as long as the table comes out."""
-    cx.rule("C13.R5", "marker ('~', '^'), end-of-string and segment-type decisions of _rpm_vercmp for every pair of head-character classes", floor=25)
+    cx.rule("C13.R5", "marker ('~', '^'), end-of-string and segment-type decisions of _rpm_vercmp for every pair of head-character classes", floor=30)
     m = cx.repo.module(RV)
     fn = m.func("_rpm_vercmp", "C13.R5")
     ps = params(fn)
